@@ -7,6 +7,7 @@ import Driver.Build
 import Driver.Structure
 import Driver.Clip
 import Driver.Values
+import Driver.Refs
 open Driver
 
 def step (line : String) : String :=
@@ -28,6 +29,8 @@ def step (line : String) : String :=
   | "rxryobs" :: args => handleStructure "rxryobs" args
   | "switch" :: args => handleStructure "switch" args
   | "clipf" :: args => handleClip args
+  | "collect" :: args => handleRefs "collect" args
+  | "finputs" :: args => handleRefs "finputs" args
   | "stops" :: args => handleValues "stops" args
   | "dash" :: args => handleValues "dash" args
   | "miter" :: args => handleValues "miter" args
